@@ -472,3 +472,139 @@ Definition resolve (Cls F O : Type) (I : introspect Cls) (P : pyprims F O) (base
   dor req <- i_required I c;
   dor ps <- cast_params P param req;
   Ok (c, ps).
+
+(* ---------- the get_args() functions: the namespace after parser.parse_args(), then the post-processing ----------
+   A namespace is a record: the plain argparse results main() reads (the `*_args` record above), the class-valued
+   options' names and KEY=VALUE dicts as parse_args left them, and the attributes get_args() adds (`*_cls`: what
+   get_class returned, possibly None; `*_params`: the cast parameters).  An attribute get_args() has not stored is
+   represented by None / {} (reading it would be an AttributeError; main() reads it only under the test that stored it).
+   `cls( **params)` is the component `construct` (the named class instantiated with the cast parameters; it may raise);
+   calling None is a TypeError (Err 99). *)
+Definition instantiate (Cls V Obj : Type) (construct : Cls -> V -> result Obj) (c : option Cls) (params : V) : result Obj :=
+  dor k <- unwrap c; construct k params.
+
+(* calculate_scores *)
+Record cs_ns (Cls F O : Type) := mk_cs_ns {
+  cs_plain : cs_args;
+  cs_scorer : str;                                          (* --scorer *)
+  cs_scorer_param : option (list (str * str));              (* --scorer-param KEY=VALUE ... (KVAppendAction) *)
+  cs_scorer_cls : option Cls;
+  cs_scorer_params : list (str * pval F O) }.
+Definition cs_set_scorer_cls (Cls F O : Type) (a : cs_ns Cls F O) (c : option Cls) : cs_ns Cls F O :=
+  mk_cs_ns (cs_plain a) (cs_scorer a) (cs_scorer_param a) c (cs_scorer_params a).
+Definition cs_set_scorer_params (Cls F O : Type) (a : cs_ns Cls F O) (p : list (str * pval F O)) : cs_ns Cls F O :=
+  mk_cs_ns (cs_plain a) (cs_scorer a) (cs_scorer_param a) (cs_scorer_cls a) p.
+Definition cs_get_args (Cls F O : Type) (I : introspect Cls) (P : pyprims F O) (raw : cs_ns Cls F O)
+  : result (cs_ns Cls F O) :=
+  dor cp <- resolve I P BScorer (cs_scorer raw) (cs_scorer_param raw);
+  Ok (cs_set_scorer_params (cs_set_scorer_cls raw (fst cp)) (snd cp)).
+Definition cs_with_mk (Scr Pl Th Dm Sc H : Type) (L : cs_lib Scr Pl Th Dm Sc H) (mk : result Sc) : cs_lib Scr Pl Th Dm Sc H :=
+  mk_cs_lib (cs_load_screen L) (cs_plates L) (cs_is_observed L) (cs_plate_id L) mk (cs_load_thetas L) (cs_concat_thetas L)
+            (cs_load_dist L) (cs_concat_dist L) (cs_score_chunk L).
+(* the whole command: the scorer is the class named by --scorer, instantiated with the cast --scorer-param values *)
+Definition cli_calculate_scores_cmd (Cls F O Scr Pl Th Dm Sc H : Type) (I : introspect Cls) (P : pyprims F O)
+  (construct : Cls -> list (str * pval F O) -> result Sc) (L : cs_lib Scr Pl Th Dm Sc H) (mix : Z -> Z)
+  (raw : cs_ns Cls F O) : result (list (path * H)) :=
+  dor a <- cs_get_args I P raw;
+  cli_calculate_scores (cs_with_mk L (instantiate construct (cs_scorer_cls a) (cs_scorer_params a))) mix (cs_plain a).
+
+(* select_next_plate *)
+Record sn_ns (Cls F O : Type) := mk_sn_ns {
+  sn_plain : sn_args;                                       (* sn_policy: --policy, None when absent *)
+  sn_policy_param : option (list (str * str));
+  sn_policy_cls : option Cls;
+  sn_policy_params : list (str * pval F O) }.
+Definition sn_set_policy_cls (Cls F O : Type) (a : sn_ns Cls F O) (c : option Cls) : sn_ns Cls F O :=
+  mk_sn_ns (sn_plain a) (sn_policy_param a) c (sn_policy_params a).
+Definition sn_set_policy_params (Cls F O : Type) (a : sn_ns Cls F O) (p : list (str * pval F O)) : sn_ns Cls F O :=
+  mk_sn_ns (sn_plain a) (sn_policy_param a) (sn_policy_cls a) p.
+Definition sn_get_args (Cls F O : Type) (I : introspect Cls) (P : pyprims F O) (raw : sn_ns Cls F O)
+  : result (sn_ns Cls F O) :=
+  match sn_policy (sn_plain raw) with
+  | Some name =>
+      dor cp <- resolve I P BPlatePolicy name (sn_policy_param raw);
+      Ok (sn_set_policy_params (sn_set_policy_cls raw (fst cp)) (snd cp))
+  | None => Ok (sn_set_policy_params (sn_set_policy_cls raw None) [])
+  end.
+Definition sn_with_mk (Scr Pl Po H : Type) (L : sn_lib Scr Pl Po H) (mk : result Po) : sn_lib Scr Pl Po H :=
+  mk_sn_lib (sn_load_screen L) mk (sn_load_scores L) (sn_concat_scores L) (sn_select L) (sn_plate_id L).
+Definition cli_select_next_plate_cmd (Cls F O Scr Pl Po H : Type) (I : introspect Cls) (P : pyprims F O)
+  (construct : Cls -> list (str * pval F O) -> result Po) (L : sn_lib Scr Pl Po H) (mix : Z -> Z)
+  (raw : sn_ns Cls F O) : result (list (path * Z)) :=
+  dor a <- sn_get_args I P raw;
+  cli_select_next_plate (sn_with_mk L (instantiate construct (sn_policy_cls a) (sn_policy_params a))) mix (sn_plain a).
+
+(* train_model *)
+Record tm_ns (Cls F O : Type) := mk_tm_ns {
+  tm_plain : tm_args;
+  tm_model : str;                                           (* --model *)
+  tm_model_param : option (list (str * str));
+  tm_model_cls : option Cls;
+  tm_model_params : list (str * pval F O) }.
+Definition tm_set_model_cls (Cls F O : Type) (a : tm_ns Cls F O) (c : option Cls) : tm_ns Cls F O :=
+  mk_tm_ns (tm_plain a) (tm_model a) (tm_model_param a) c (tm_model_params a).
+Definition tm_set_model_params (Cls F O : Type) (a : tm_ns Cls F O) (p : list (str * pval F O)) : tm_ns Cls F O :=
+  mk_tm_ns (tm_plain a) (tm_model a) (tm_model_param a) (tm_model_cls a) p.
+Definition tm_get_args (Cls F O : Type) (I : introspect Cls) (P : pyprims F O) (raw : tm_ns Cls F O)
+  : result (tm_ns Cls F O) :=
+  dor cp <- resolve I P BBayesianModel (tm_model raw) (tm_model_param raw);
+  Ok (tm_set_model_cls (tm_set_model_params raw (snd cp)) (fst cp)).
+Definition tm_with_construct (Scr Sub Sp Pa Mo Th : Type) (L : tm_lib Scr Sub Sp Pa Mo Th) (c : Pa -> result Mo)
+  : tm_lib Scr Sub Sp Pa Mo Th :=
+  mk_tm_lib (tm_load_screen L) (tm_from_screen L) (tm_set_space L) c (tm_new_holder L) (tm_subset_observed L)
+            (tm_add_observations L) (tm_sample L).
+(* the model is the class named by --model, instantiated with the cast --model-param values plus the experiment space *)
+Definition cli_train_model_cmd (Cls F O Scr Sub Sp Mo Th : Type) (I : introspect Cls) (P : pyprims F O)
+  (construct : Cls -> list (str * pval F O) -> result Mo) (L : tm_lib Scr Sub Sp (list (str * pval F O)) Mo Th)
+  (raw : tm_ns Cls F O) : result (list (path * Th)) :=
+  dor a <- tm_get_args I P raw;
+  cli_train_model (tm_with_construct L (instantiate construct (tm_model_cls a))) (tm_model_params a) (tm_plain a).
+
+(* prepare_retrospective_simulation: three class-valued options, each optional *)
+Record pr_opt (Cls F O : Type) := mk_pr_opt {
+  po_param : option (list (str * str));                     (* --<x>-param KEY=VALUE ... *)
+  po_cls : option Cls;                                      (* args.<x>_cls *)
+  po_params : list (str * pval F O) }.                      (* args.<x>_params *)
+Record pr_ns (Cls F O : Type) := mk_pr_ns {
+  pr_plain : pr_args;                                       (* the three option names are pr_plate_generator ... *)
+  pr_pg : pr_opt Cls F O;                                   (* --plate-generator *)
+  pr_ig : pr_opt Cls F O;                                   (* --initial-plate-generator *)
+  pr_ps : pr_opt Cls F O }.                                 (* --plate-smoother *)
+Definition po_set_cls (Cls F O : Type) (o : pr_opt Cls F O) (c : option Cls) : pr_opt Cls F O :=
+  mk_pr_opt (po_param o) c (po_params o).
+Definition po_set_params (Cls F O : Type) (o : pr_opt Cls F O) (p : list (str * pval F O)) : pr_opt Cls F O :=
+  mk_pr_opt (po_param o) (po_cls o) p.
+Definition pr_set_pg (Cls F O : Type) (a : pr_ns Cls F O) (o : pr_opt Cls F O) : pr_ns Cls F O :=
+  mk_pr_ns (pr_plain a) o (pr_ig a) (pr_ps a).
+Definition pr_set_ig (Cls F O : Type) (a : pr_ns Cls F O) (o : pr_opt Cls F O) : pr_ns Cls F O :=
+  mk_pr_ns (pr_plain a) (pr_pg a) o (pr_ps a).
+Definition pr_set_ps (Cls F O : Type) (a : pr_ns Cls F O) (o : pr_opt Cls F O) : pr_ns Cls F O :=
+  mk_pr_ns (pr_plain a) (pr_pg a) (pr_ig a) o.
+(* one option: untouched when absent, else class and cast parameters stored *)
+Definition pr_resolve_opt (Cls F O : Type) (I : introspect Cls) (P : pyprims F O) (base : base_class) (name : option cname)
+  (o : pr_opt Cls F O) : result (pr_opt Cls F O) :=
+  match name with
+  | Some n => dor cp <- resolve I P base n (po_param o); Ok (po_set_params (po_set_cls o (fst cp)) (snd cp))
+  | None => Ok o
+  end.
+(* in source order: plate generator, initial plate generator, plate smoother - each cast with ITS OWN class's annotations *)
+Definition pr_get_args (Cls F O : Type) (I : introspect Cls) (P : pyprims F O) (raw : pr_ns Cls F O)
+  : result (pr_ns Cls F O) :=
+  dor g <- pr_resolve_opt I P BPlateGenerator (pr_plate_generator (pr_plain raw)) (pr_pg raw);
+  dor i <- pr_resolve_opt I P BInitialPlateGenerator (pr_initial_plate_generator (pr_plain raw)) (pr_ig raw);
+  dor s <- pr_resolve_opt I P BPlateSmoother (pr_plate_smoother (pr_plain raw)) (pr_ps raw);
+  Ok (mk_pr_ns (pr_plain raw) g i s).
+Definition pr_with_mk (Scr Pl Ig Pg Ps : Type) (L : pr_lib Scr Pl Ig Pg Ps) (mi : result Ig) (mg : result Pg) (ms : result Ps)
+  : pr_lib Scr Pl Ig Pg Ps :=
+  mk_pr_lib (pr_load_screen L) (pr_filter L) mi (pr_initial L) (pr_mask L) mg (pr_generate L) (pr_plates L) (pr_is_observed L)
+            (pr_plate_id L) (pr_plate_size L) (pr_choice L) (pr_reveal L) ms (pr_smooth L) (pr_n_plates L) (pr_size L)
+            (pr_holdout L).
+Definition cli_prepare_cmd (Cls F O Scr Pl Ig Pg Ps : Type) (I : introspect Cls) (P : pyprims F O)
+  (construct_ig : Cls -> list (str * pval F O) -> result Ig) (construct_pg : Cls -> list (str * pval F O) -> result Pg)
+  (construct_ps : Cls -> list (str * pval F O) -> result Ps) (L : pr_lib Scr Pl Ig Pg Ps) (mix : Z -> Z)
+  (raw : pr_ns Cls F O) : result (list (path * Scr)) :=
+  dor a <- pr_get_args I P raw;
+  cli_prepare (pr_with_mk L (instantiate construct_ig (po_cls (pr_ig a)) (po_params (pr_ig a)))
+                            (instantiate construct_pg (po_cls (pr_pg a)) (po_params (pr_pg a)))
+                            (instantiate construct_ps (po_cls (pr_ps a)) (po_params (pr_ps a))))
+              mix (pr_plain a).
